@@ -91,7 +91,7 @@ theorem C04_boundary_inside (T : Transc F) (pts : List (P2 F)) (p : P2 F) (hs : 
     @polygonContainsImpl F (fieldScalar T) pts p = true :=
   (polygonContainsImpl_iff T pts p hs).mpr (Or.inl ⟨e, he, hon⟩)
 
-theorem approx_field (T : Transc F) (a b : F) :
+theorem approx_fieldT (T : Transc F) (a b : F) :
     @approx F (fieldScalar T) a b = decide (|a - b| < |min a b| * T.eps * 10000) := by
   unfold approx
   simp only [fabs_eq_abs]
@@ -130,7 +130,7 @@ theorem C04_separated_of_integers (T : Transc F) (pts : List (P2 F)) (p : P2 F)
   have hcoord : ∀ a b : F, (∃ z : ℤ, a = z) → (∃ z : ℤ, b = z) → |a| * T.eps * 10000 < 1 → |b| * T.eps * 10000 < 1 →
       @approx F (fieldScalar T) a b = true → a = b := by
     intro a b ⟨za, ha⟩ ⟨zb, hb⟩ hsa hsb happ
-    rw [approx_field] at happ
+    rw [approx_fieldT] at happ
     simp only [decide_eq_true_eq] at happ
     by_contra hne
     have hz : za ≠ zb := by intro h; apply hne; rw [ha, hb, h]
